@@ -111,6 +111,7 @@ type loopInfo struct {
 	targets  []assignTarget // evaluated `loop N assigns` targets (nil: no loop frame given)
 	framed   bool
 	entryWm  string
+	entryEnv map[ssa.Value]SV // values of the header phis on first arrival (what pre(x) of a loop variable refers to)
 	dec0     string
 	spec     *LoopSpec
 	reach    string
@@ -815,6 +816,7 @@ func (f *Frame) enterLoop(li *loopInfo, b *ssa.BasicBlock, entry *State, reach s
 		entryEnv[phi] = f.mergeSV(phi.Type(), func(k int) (string, SV) { return gs[k], vs[k] }, len(vs), f.prefix+"/"+phi.Name()+".entry")
 	}
 	li.entrySt = entry.clone()
+	li.entryEnv = entryEnv
 	li.entryWm = entry.wm()
 	li.targets, li.framed = nil, false
 	if li.spec != nil && len(li.spec.Assigns) > 0 && !x.discover {
@@ -840,6 +842,7 @@ func (f *Frame) enterLoop(li *loopInfo, b *ssa.BasicBlock, entry *State, reach s
 			env := f.specEnv(entry, f.entrySt, entryEnv)
 			env.loopHeader = b
 			env.preSt = li.entrySt
+			env.preEnv = li.entryEnv
 			t := env.boolClause(inv)
 			c.oblige(fmt.Sprintf("loop%d.inv-entry", li.ordinal), inv.Tags, reach, t, inv.Src, inv.Text)
 		}
@@ -935,12 +938,14 @@ func (f *Frame) enterLoop(li *loopInfo, b *ssa.BasicBlock, entry *State, reach s
 			env := f.specEnv(hs, f.entrySt, nil)
 			env.loopHeader = b
 			env.preSt = li.entrySt
+			env.preEnv = li.entryEnv
 			c.assume(reach, env.boolClause(inv))
 		}
 		if li.spec.Decreases != nil {
 			env := f.specEnv(hs, f.entrySt, nil)
 			env.loopHeader = b
 			env.preSt = li.entrySt
+			env.preEnv = li.entryEnv
 			li.dec0 = env.intClause(li.spec.Decreases)
 		}
 	}
@@ -1014,6 +1019,7 @@ func (f *Frame) backEdgeObligations(li *loopInfo, from *ssa.BasicBlock, st *Stat
 		env := f.specEnv(st, f.entrySt, backEnv)
 		env.loopHeader = b
 		env.preSt = li.entrySt
+		env.preEnv = li.entryEnv
 		env.prove = true
 		c.oblige(fmt.Sprintf("loop%d.inv-preserved", li.ordinal), inv.Tags, guard, env.boolClause(inv), inv.Src, inv.Text)
 	}
@@ -1021,6 +1027,7 @@ func (f *Frame) backEdgeObligations(li *loopInfo, from *ssa.BasicBlock, st *Stat
 		env := f.specEnv(st, f.entrySt, backEnv)
 		env.loopHeader = b
 		env.preSt = li.entrySt
+		env.preEnv = li.entryEnv
 		d1 := env.intClause(li.spec.Decreases)
 		c.oblige(fmt.Sprintf("loop%d.decreases", li.ordinal), li.spec.Decreases.Tags, guard,
 			fmt.Sprintf("(and (>= %s 0) (< %s %s))", li.dec0, d1, li.dec0), li.spec.Decreases.Src, li.spec.Decreases.Text)
@@ -1174,7 +1181,16 @@ func (f *Frame) execInstr(in ssa.Instruction, st *State, g string) {
 	case *ssa.ChangeInterface:
 		f.env[i] = f.val(i.X, st)
 	case *ssa.ChangeType:
-		f.env[i] = f.val(i.X, st)
+		v := f.val(i.X, st)
+		if ss, ok := i.X.Type().Underlying().(*types.Struct); ok && v.T != "" && f.c().sortOf(i.X.Type()) != f.c().sortOf(i.Type()) {
+			// value conversion between distinct named struct types with identical underlying type: rebuild field-wise
+			var fs []string
+			for k := 0; k < ss.NumFields(); k++ {
+				fs = append(fs, f.c().projField(i.X.Type(), v.T, k))
+			}
+			v = SV{T: f.c().mkStruct(i.Type(), fs)}
+		}
+		f.env[i] = v
 	case *ssa.Convert:
 		f.define(i, f.convert(i, f.val(i.X, st), i.X.Type(), i.Type(), st, g), st, g)
 	case *ssa.MultiConvert:
